@@ -36,6 +36,7 @@ def run(ctx):
     r185(ctx)
     r186(ctx)
     r187(ctx)
+    r1812_extended_key(ctx)
     from ..statrules import shared_class_state
     shared_class_state(ctx, 'R18.11', sorted(c for c, ci in ctx.prog.classes.items() if ci.module.name == 'parameters'),
                        'children added to one parameter map (or options of one selection parameter) appear in every other one')
@@ -456,3 +457,98 @@ def r1810_dotted_key(ctx):
             ctx.finding('R18.10', f'InputParameterMap.{m}:recursion', ci, rec[0] if rec else fn,
                         f'{m}() {why}; it must descend into the sub-map named by the first key element with everything after the first period '
                         f'(e.g. `{k}[{k}.find(".") + 1:]`): with keys of three or more elements the wrong parameter is returned / removed', where=f'InputParameterMap.{m}')
+
+
+def r1812_extended_key(ctx):
+    """extended_key() is the parent's extended key, a period and the own key (the own key at the root), computed from the *current* parent.
+    A value remembered from an earlier call may be returned only under a token test whose token every change of a parent replaces for
+    all parameters (class level): the keys of the parameters below the one that moved are outdated too."""
+    import ast
+    from ..cfg import CFG
+    from ..pathsum import PathSum, Unsupported
+    prog = ctx.prog
+    ctx.rule('R18.12', 'extended_key() = own key at the root, else parent.extended_key() + "." + own key, from the current parent; a memoised key is returned only '
+                       'under a token that every re-parenting replaces at class level')
+    ci = prog.cls(ROOT)
+    fn = prog.method(ROOT, 'extended_key', inherited=False)
+    if fn is None:
+        raise AnalysisError('anchor vanished: InputParameter.extended_key')
+    want = {True: ('self._key',), False: ("self._parent.extended_key() + '.' + self._key", "f'{self._parent.extended_key()}.{self._key}'")}
+    problems = []
+    memo_returns = []
+    stores = {}
+    for root in (True, False):
+        env = {('isnone', 'self._parent'): root}
+        try:
+            outs = PathSum(prog, ROOT, fn, env, assume_validated=False).run()
+        except Unsupported as e:
+            problems.append((fn, f'extended_key is not summarised ({e})'))
+            break
+        ctx.examined()
+        for o in outs:
+            if o.kind != 'return' or o.value is None:
+                problems.append((o.node or fn, f'extended_key ends with {o.kind}'))
+                continue
+            vt = unparse(o.value)
+            if vt in want[root]:
+                for f_, v_ in o.store.items():
+                    stores.setdefault(f_, []).append((root, unparse(v_)))
+                continue
+            memo_returns.append((root, o, vt))
+    memo_ok = True
+    if memo_returns and not problems:
+        # returned `self.M[1]` under `self.M[0] is self.T`
+        for (root, o, vt) in memo_returns:
+            m = None
+            if isinstance(o.value, ast.Subscript) and is_self_attr(o.value.value) and unparse(o.value.slice) == '1':
+                m = o.value.value.attr
+            conds = [c for (c, b) in o.conds if b in (True, 'fork:T')]
+            tok = None
+            for c in conds:
+                for part in c.replace('(', ' ').replace(')', ' ').split(' and '):
+                    part = part.strip()
+                    if m and part.startswith(f'self.{m}[0] is self.'):
+                        tok = part.split(' is self.')[1].strip()
+            if m is None or tok is None:
+                problems.append((o.node or fn, f'extended_key can return `{vt}`, which is neither the key built from the current parent nor a memo guarded by a token test'))
+                memo_ok = False
+                continue
+            # the memo is filled with (token read in this call, key built in this call)
+            filled = [(r, t) for (r, t) in stores.get(m, [])]
+            good_fill = filled and all(t in tuple(f'(self.{tok}, {w})' for w in want[r]) for (r, t) in filled)
+            if not good_fill:
+                problems.append((o.node or fn, f'the memo `{m}` is not filled with (current token, key built from the current parent): {sorted(set(t for _r, t in filled))[:2]}'))
+                memo_ok = False
+            # the token lives in a class body and every re-parenting replaces it there
+            decl = [c for c in prog.mro(ROOT) if c in prog.classes and any(n == tok for (n, _v, _s) in prog.classes[c].all_assigns)]
+            if not decl:
+                problems.append((o.node or fn, f'the token `{tok}` is not a class-level attribute: every parameter has its own, nothing can outdate the memos of the others'))
+                memo_ok = False
+                continue
+            D = decl[0]
+            for cname, cinfo in prog.classes.items():
+                if cinfo.module.name != ci.module.name:
+                    continue
+                for mname, f2 in cinfo.methods.items():
+                    if mname == '__init__' and cname == ROOT:
+                        continue
+                    g = None
+                    for st in walk_shallow(f2):
+                        if isinstance(st, (ast.Assign, ast.AnnAssign)) and any(isinstance(t, ast.Attribute) and t.attr == '_parent'
+                                                                                 for t in (st.targets if isinstance(st, ast.Assign) else [st.target])):
+                            g = g or CFG(f2)
+                            node = g.node_for(st)
+                            repl = [g.node_for(a) for a in walk_shallow(f2) if isinstance(a, ast.Assign) and any(
+                                isinstance(t, ast.Attribute) and t.attr == tok and isinstance(t.value, ast.Name) and t.value.id in (D, 'cls') for t in a.targets)]
+                            inst = [a for a in walk_shallow(f2) if isinstance(a, ast.Assign) and any(is_self_attr(t, tok) for t in a.targets)]
+                            skipped = g.reaches(node, g.exit, avoid=repl, labels_excluded=('exc', 'raise', 'reraise')) if repl else True
+                            if skipped:
+                                why = (f'`{short(inst[0], 50)}` replaces the token on this object only (an instance attribute that hides the class attribute): the memos of all '
+                                       'other parameters stay valid') if inst else f'the token `{D}.{tok}` is not replaced afterwards'
+                                problems.append((st, f'{cname}.{mname} gives a parameter a (new) parent but {why}; a key that was asked for before -- of the parameter or of '
+                                                     f'anything below it -- keeps naming the old position, so the parameter is not retrievable / removable by its extended key'))
+                                memo_ok = False
+    ok = not problems
+    ctx.ob('R18.12', 'InputParameter.extended_key', ok, sample='extended_key: built from the current parent on every path' + (f'; memoised under a class-level token: {memo_ok}' if memo_returns else ''))
+    for (node, msg) in problems[:3]:
+        ctx.finding('R18.12', f'InputParameter.extended_key:{msg.split(":")[0][:40]}', ci, node, msg, where='InputParameter.extended_key')
